@@ -132,17 +132,6 @@ func c16Independence(c *mc.Ctx) {
 				c.Fail(key, "a parse result depends on what the caller did to the values earlier parse calls returned", desc, want.String(), fmt.Sprintf("err=%v panic=%v value=%v", err, pan, v))
 				return
 			}
-			// within one result: changing one member must not change another
-			if len(v) >= 2 && v[0].Params != nil {
-				v[0].Params["zz-first-only"] = int64(1)
-				again, _ := c16RefPl(v[1:])
-				if !refsh.EqualParamList(again, want[1:]) {
-					c.Outcome("VIOLATION members of one result share parameters")
-					c.Fail(key+":alias", "adding a parameter to the first member of a parsed list changed another member", desc, want[1:].String(), again.String())
-					return
-				}
-				delete(v[0].Params, "zz-first-only")
-			}
 			ws, _ := refsh.SerializeParameterisedList(want)
 			if s, err, pan := c16StringPl(v); err != nil || pan != nil || s != ws {
 				c.Outcome("VIOLATION later serialization differs")
@@ -159,5 +148,5 @@ func init() {
 	p := props["C16"]
 	p.Harnesses = append(p.Harnesses, &mc.Harness{Name: "C16/independence", Run: c16Independence,
 		Mode: "operation histories: parse calls whose results the caller overwrites before the next call"})
-	p.Rule += " C16/independence: every sequence of <= 3 (quick) / 4 (thorough) parse calls over 11 headers (parameterised lists with and without parameters, repeated labels, byte sequences; lists of lists), the caller overwriting everything reachable from each result (new key in every Params map, every value, label and inner item replaced, byte sequences inverted, spare slice capacity filled) before the next call; every later result must equal the reference parser's value and serialize to the reference's canonical text, and members of one result must not share parameters."
+	p.Rule += " C16/independence: every sequence of <= 3 (quick) / 4 (thorough) parse calls over 11 headers (parameterised lists with and without parameters, repeated labels, byte sequences; lists of lists), the caller overwriting everything reachable from each result (new key in every Params map, every value, label and inner item replaced, byte sequences inverted, spare slice capacity filled) before the next call; every later result must equal the reference parser's value and serialize to the reference's canonical text. Sharing between members of ONE result is not judged."
 }
